@@ -298,6 +298,7 @@ type c04State struct {
 	rejected     int
 	lastOwner    map[string]int
 	nAnySS       int
+	rot          int
 }
 
 func (h *c04State) byName(name string) *c04Client {
@@ -388,6 +389,10 @@ func (h *c04State) relation(name, cid string, a netip.Addr, mac string) string {
 		return "client-not-in-registry"
 	case cid != "" && c.ownsCID(cid):
 		return "clientid-owner"
+	case cid != "" && c.spec.Name == cid:
+		return "client-named-like-the-clientid"
+	case cid != "" && c04SpelledMAC(cid) != "" && c.ownsMAC(c04SpelledMAC(cid)):
+		return "owner-of-the-mac-the-clientid-spells"
 	case a.IsValid() && c.ownsIP(a):
 		return "exact-ip-owner"
 	case a.IsValid() && c.bestNet(a) >= 0:
@@ -454,6 +459,8 @@ type c04Probes struct {
 	macColon8 []string // colon spelling of the 8-byte MACs: also an IPv6 address
 	cids      []string
 	applyCIDs []string
+	// lookalikeCIDs are the members of applyCIDs that nobody can own.
+	lookalikeCIDs []string
 }
 
 func c04MakeProbes() (p c04Probes) {
@@ -472,6 +479,21 @@ func c04MakeProbes() (p c04Probes) {
 	}
 	p.cids = append(slices.Clone(c04PoolCIDs), "unknown-cid")
 	p.applyCIDs = append([]string{""}, p.cids...)
+	// Request ClientIDs that are valid ClientID labels but spell an identifier
+	// of ANOTHER kind that the storage may hold, or resemble a stored ClientID:
+	// the dash form of the pool MACs (6, 8 and 20 bytes), a dashed IP, client
+	// names, a prefix and an extension of a pool ClientID.  A request ClientID
+	// matches only a client that lists exactly that ClientID.
+	for _, m := range p.macs {
+		p.lookalikeCIDs = append(p.lookalikeCIDs, strings.ReplaceAll(net.HardwareAddr(m.mac).String(), ":", "-"))
+	}
+	p.lookalikeCIDs = append(p.lookalikeCIDs, "10-1-1-1", "alpha", "hotel", "cid", "cid-ab")
+	for _, l := range p.lookalikeCIDs {
+		if err := client.ValidateClientID(l); err != nil {
+			panic("c04: look-alike is not a valid ClientID: " + l)
+		}
+	}
+	p.applyCIDs = append(p.applyCIDs, p.lookalikeCIDs...)
 	return p
 }
 
@@ -691,6 +713,43 @@ func c04ApplyDiff(got, want c04ApplyOut) string {
 	return ""
 }
 
+// c04SpelledMAC returns the raw MAC a ClientID text can be read as, or "".
+func c04SpelledMAC(cid string) string {
+	m, err := net.ParseMAC(cid)
+	if err != nil {
+		return ""
+	}
+	return string(m)
+}
+
+// lookalikeOwner returns the client that holds, as an identifier of another
+// kind or as its name, what the look-alike ClientID spells.
+func (h *c04State) lookalikeOwner(cid string) *c04Client {
+	if c := h.byName(cid); c != nil {
+		return c
+	}
+	if m, err := net.ParseMAC(cid); err == nil {
+		if cs := h.ownersMAC(string(m)); len(cs) > 0 {
+			return cs[0]
+		}
+	}
+	if a, err := netip.ParseAddr(strings.ReplaceAll(cid, "-", ".")); err == nil {
+		for _, c := range h.clients {
+			if c.ownsIP(a) {
+				return c
+			}
+		}
+	}
+	for _, c := range h.clients {
+		for _, x := range c.cids {
+			if strings.HasPrefix(x, cid) || strings.HasPrefix(cid, x) {
+				return c
+			}
+		}
+	}
+	return nil
+}
+
 // wantRequest computes the candidates for a request by the statement's
 // precedence.
 func (h *c04State) wantRequest(cid string, a netip.Addr) (cands []*c04Client, tier string) {
@@ -856,12 +915,30 @@ func (h *c04State) probeAll(pr *c04Probes, e2e *rand.Rand) (obs []string) {
 	}
 
 	// Requests.
-	for _, a := range pr.addrs {
+	for ai, a := range pr.addrs {
 		addrCands, addrTier := h.ownersAddr(a)
 		nContaining := h.containingOwners(a)
 		for _, cid := range pr.applyCIDs {
 			cands, tier := h.wantRequest(cid, a)
+			lookalike := slices.Contains(pr.lookalikeCIDs, cid)
+			if lookalike && (ai+h.rot)%3 != 0 {
+				// A third of the addresses, the same within one history (the
+				// observation vectors of consecutive steps are compared) and
+				// rotating over the histories.
+				continue
+			}
 			for _, g := range []bool{false, true} {
+				if lookalike && g {
+					// Attribution is what these probes are about; one polarity
+					// of the global switches is enough.
+					continue
+				}
+				if lookalike {
+					rep.Event("requests_with_clientid_spelling_another_identifier_kind")
+					if oc := h.lookalikeOwner(cid); oc != nil && c04InCands(cands, oc.spec.Name) == nil {
+						rep.Event("lookalike_clientid_names_identifier_of_client_other_than_request_owner")
+					}
+				}
 				got := h.apply(cid, a, g)
 				obs = append(obs, "apply:"+cid+"@"+a.String()+"/"+string(c04B(g))+"="+got.str())
 				rep.Event("probes_apply")
@@ -1583,7 +1660,7 @@ func TestVerifC04(t *testing.T) {
 	nHist := verifkit.Pick(1500, 30000)
 	for hi := 0; hi < nHist; hi++ {
 		func() {
-			h := &c04State{rep: rep, flts: flts, dhcp: &c04DHCP{leases: map[netip.Addr]net.HardwareAddr{}}, lastOwner: map[string]int{}}
+			h := &c04State{rep: rep, rot: hi, flts: flts, dhcp: &c04DHCP{leases: map[netip.Addr]net.HardwareAddr{}}, lastOwner: map[string]int{}}
 			defer func() {
 				if r := recover(); r != nil {
 					h.violate("panic:after-"+h.lastFam, fmt.Sprintf("client storage panicked: %v", r), nil)
@@ -1721,17 +1798,18 @@ func TestVerifC04(t *testing.T) {
 
 	// The run must have seen what the property is about.
 	for ev, min := range map[string]int{
-		"ops_rejected_total":                                      100,
-		"identifier_changed_owner":                                100,
-		"requests_decided_by:clientid":                            1000,
-		"requests_decided_by:exact-ip":                            1000,
-		"requests_decided_by:cidr":                                1000,
-		"requests_decided_by:dhcp-mac":                            200,
-		"requests_decided_by:none":                                1000,
-		"addresses_inside_2plus_cidrs_of_different_clients":       200,
-		"requests_where_clientid_owner_beats_other_address_owner": 200,
-		"ops_update_accepted:drop-ids":                            20,
-		"ops_update_accepted:rename":                              20,
+		"ops_rejected_total":                                                     100,
+		"identifier_changed_owner":                                               100,
+		"requests_decided_by:clientid":                                           1000,
+		"requests_decided_by:exact-ip":                                           1000,
+		"requests_decided_by:cidr":                                               1000,
+		"requests_decided_by:dhcp-mac":                                           200,
+		"requests_decided_by:none":                                               1000,
+		"addresses_inside_2plus_cidrs_of_different_clients":                      200,
+		"requests_where_clientid_owner_beats_other_address_owner":                200,
+		"lookalike_clientid_names_identifier_of_client_other_than_request_owner": 500,
+		"ops_update_accepted:drop-ids":                                           20,
+		"ops_update_accepted:rename":                                             20,
 	} {
 		if rep.Events[ev] < min && !rep.Violated() {
 			rep.Inconcl(fmt.Sprintf("event %q seen %d times, fewer than %d", ev, rep.Events[ev], min))
